@@ -315,6 +315,13 @@ def cardano_consts():
                                      Cip1852Conf.CardanoLedgerMainNet, Cip1852Conf.CardanoLedgerTestNet)}
     expect(len(coin) == 1, f"CIP-1852 coin indexes differ: {coin}")
     out.append("Definition cip1852_coin : Z := %d%%Z." % coin.pop())
+    from bip_utils.bip.bip44.bip44 import Bip44Const
+    reflect("bip_utils/bip/bip44/bip44.py", "Bip44Const", "PURPOSE")
+    out.append("Definition bip44_purpose : Z := %d%%Z." % Bip44Const.PURPOSE)
+    from bip_utils.bip.conf.bip44 import Bip44Conf
+    bcoin = {c.CoinIndex() for c in (Bip44Conf.CardanoByronIcarus, Bip44Conf.CardanoByronLedger)}
+    expect(len(bcoin) == 1, f"BIP-44 Cardano Byron coin indexes differ: {bcoin}")
+    out.append("Definition bip44_cardano_coin : Z := %d%%Z." % bcoin.pop())
     sp = str_consts("bip_utils/cardano/shelley/cardano_shelley.py", "CardanoShelley", "__DeriveStakingKeys")
     expect(len(sp) == 1, f"cardano_shelley.py: __DeriveStakingKeys: expected one path literal, got {sp}")
     try:
